@@ -162,6 +162,14 @@ func (h *hist) oneOp() {
 				h.c.Count("op/add-perturbed-lca", 1)
 			}
 		}
+	case c < 98 && h.fol != nil:
+		// the follower meets an item again that it committed some time ago
+		if h.r.Intn(3) == 0 {
+			h.followerRestart()
+		}
+		if len(h.committedList) > 0 {
+			h.probeFollower(h.committedList[h.r.Intn(len(h.committedList))], "later")
+		}
 	default:
 		// a block (or a second look at the same proposal) carrying light-client-attack evidence that is already pending
 		for _, ev := range h.pendingItems() {
@@ -177,6 +185,8 @@ func (h *hist) oneOp() {
 func runHistory(c *verdict.Ctx, idx int) {
 	h := newHist(c, idx)
 	defer h.ch.Close()
+	h.newFollower()
+	defer h.closeFollower()
 	heights := h.desc["heights"].(int)
 	// a few evidence-free heights first
 	for i := 0; i < 3 && !h.dead; i++ {
